@@ -1,0 +1,28 @@
+//go:build verif
+
+// Contracts for the deductive verifier in /verif (comment-only; see /verif/DESIGN.md).
+// This file is compiled only with -tags verif and contributes nothing but the package clause.
+
+package yqlib
+
+// ---------------------------------------------------------------------------------------------
+// operator_delete.go
+
+//@ func deleteFromArray
+//@   props C03 C07 C16 C11
+//@   let k = idxOfText(sprintv(childPath))
+//@   let n0 = len(old(node.Content))
+//@   requires node != nil
+//@   requires @elems-nonnil forall(i, 0, len(node.Content), node.Content[i] != nil && node.Content[i].Key != nil)
+//@   requires @keys-distinct forall(i, 0, len(node.Content), forall(j, 0, len(node.Content), implies(i != j, node.Content[i].Key != node.Content[j].Key)))
+//@   modifies node.Content, node.Content[*].Key.Value
+//@   ensures @length len(node.Content) == n0 - b2i(0 <= k && k < n0)
+//@   ensures @removes-exactly-k forall(j, 0, len(node.Content), node.Content[j] == old(node.Content[j + b2i(0 <= k && k <= j)]))
+//@   ensures @renumbered forall(j, 0, len(node.Content), node.Content[j].Key.Value == itoa(j))
+//@   loop 1:
+//@     invariant @bounds 0 <= index && index <= len(contents)
+//@     invariant @contents-stable contents == old(node.Content) && forall(j, 0, len(contents), contents[j] == old(node.Content[j]))
+//@     invariant @len len(newContents) == index - b2i(0 <= k && k < index)
+//@     invariant @prefix forall(j, 0, len(newContents), newContents[j] == contents[j + b2i(0 <= k && k <= j)])
+//@     invariant @keys forall(j, 0, len(newContents), newContents[j].Key.Value == itoa(j))
+//@     decreases len(contents) - index
